@@ -77,6 +77,7 @@ type Sim struct {
 
 	topicIDs map[[16]byte]string // learned from Metadata responses on the wire
 	wirelog  bool
+	rngMu    sync.Mutex
 }
 
 // TopicByID resolves a topic id seen on the wire.
@@ -132,6 +133,13 @@ func (h *evHeap) Pop() any {
 	return x
 }
 
+// Pick draws from the scenario's seeded stream; safe for concurrent use.
+func (s *Sim) Pick(n int) int {
+	s.rngMu.Lock()
+	defer s.rngMu.Unlock()
+	return s.Rng.Intn(n)
+}
+
 // Seq returns the next global event sequence number.
 func (s *Sim) Seq() uint64 { return s.seq.Add(1) }
 
@@ -169,7 +177,7 @@ func (s *Sim) Max(name string, v int64) {
 	s.mu.Unlock()
 }
 
-const logRing = 6000
+var logRing = 6000
 
 // Logf appends to the in-memory log ring; nothing is written during a run.
 func (s *Sim) Logf(f string, a ...any) {
@@ -234,6 +242,9 @@ func Run(t *testing.T, p *plan.Plan, body func(s *Sim)) *plan.Result {
 	s := &Sim{T: t, P: p, stats: map[string]int64{}, clients: map[string]*kgo.Client{}, topicIDs: map[[16]byte]string{}}
 	s.OnResp = append(s.OnResp, s.learnTopics)
 	s.wirelog = p.Knob("wirelog", 0) != 0
+	if v := p.Knob("logring", 0); v > 0 {
+		logRing = int(v)
+	}
 	wall := time.Now()
 	func() {
 		defer func() {
